@@ -89,3 +89,34 @@ fn category_identifier_property() {
     assert!(Category::LowerCase.validate(s) == !has_upper);
     assert!(Category::Text.validate(s));
 }
+
+// @harness name=category_integer kind=Bk tier=quick props=C07 bound="every string of 0..=3 characters over the alphabet {'-', '+', '0', '7', '.', 'a'}" desc="Category::Integer / DoubleInteger.validate(s) <=> s is an optional sign followed by at least one digit (every such string of <= 3 characters is in range) -- the oracle is written character by character.  (The Version / Language grammars -- split + parse per group -- did not finish in 5 minutes of CBMC even at this size and are not checked.)"
+#[kani::proof]
+#[kani::unwind(6)]
+#[kani::stub(alloc::fmt::format, stub_format)]
+fn category_integer() {
+    const ALPHA: [u8; 6] = [b'-', b'+', b'0', b'7', b'.', b'a'];
+    let n: usize = kani::any();
+    kani::assume(n <= 3);
+    let mut buf = [0u8; 3];
+    let mut i = 0;
+    while i < 3 {
+        let k: usize = kani::any();
+        kani::assume(k < 6);
+        buf[i] = ALPHA[k];
+        i += 1;
+    }
+    let s: &str = unsafe { core::str::from_utf8_unchecked(&buf[..n]) };
+    // signed integer: [+-]? digit+
+    let mut j = 0;
+    if j < n && (buf[j] == b'-' || buf[j] == b'+') { j += 1; }
+    let digits_from = j;
+    let mut all_digits = true;
+    while j < n {
+        if !buf[j].is_ascii_digit() { all_digits = false; }
+        j += 1;
+    }
+    let want_int = all_digits && digits_from < n;
+    assert!(Category::Integer.validate(s) == want_int);
+    assert!(Category::DoubleInteger.validate(s) == want_int);
+}
